@@ -150,8 +150,33 @@ ConcatC(e, pre, post, regs, want) ==
       styled == \E i \in DOMAIN regs : HasStyle(pre[regs[i]])
       \* a plain str operand containing escape sequences is parsed by the library: outside this claim
       plainEsc == \E i \in DOMAIN regs : pre[regs[i]].k = "P" /\ ~NoEsc(pre[regs[i]].t)
+      \* ... but each such operand is parsed ON ITS OWN (join(x1..xn) = ((x1 + x2) + ...) + xn): its characters show what a
+      \* terminal makes of that operand alone
+      IsEscP(i) == pre[regs[i]].k = "P" /\ ~NoEsc(pre[regs[i]].t)
+      ParsedOf(i) == RunToks(FlatToks(Tokens(pre[regs[i]].t), 1), 1, DefaultState).chars
+      escClaim == \A i \in DOMAIN regs : IsEscP(i) =>
+                     (InClaimCS(pre[regs[i]].t) /\
+                      LET tk == Tokens(pre[regs[i]].t) IN \A j \in DOMAIN tk : tk[j][1] = "sgr" => SgrStrictOK(tk[j][2]))
+      OperandLen(i) == IF IsEscP(i) THEN Len(ParsedOf(i)) ELSE Len(pre[regs[i]].t)
+      RECURSIVE OffsetOf(_)
+      OffsetOf(i) == IF i = 1 THEN 0 ELSE OffsetOf(i - 1) + OperandLen(i - 1)
   IN Cl("C05.defined", TRUE, e.out = "ok")
-  \o IF ~HasResult(e) \/ plainEsc THEN None ELSE
+  \o IF ~HasResult(e) THEN None
+     ELSE IF plainEsc THEN
+       LET w == ResultOf(e, post) IN
+       Cl("C05.plain_escape_operands", escClaim,
+          escClaim =>
+            /\ Len(w.t) = OffsetOf(Len(regs)) + OperandLen(Len(regs))
+            /\ Len(w.s) = Len(w.t)
+            /\ \A i \in DOMAIN regs :
+                 IF IsEscP(i)
+                 THEN LET pc == ParsedOf(i) IN
+                      \A k \in DOMAIN pc : /\ w.t[OffsetOf(i) + k] = pc[k][1]
+                                            /\ (\A q \in DOMAIN w.s[OffsetOf(i) + k] : Sem[w.s[OffsetOf(i) + k][q][2]].cls # "other")
+                                            /\ Display(w.s[OffsetOf(i) + k]) = pc[k][2]
+                 ELSE LET v == pre[regs[i]] IN
+                      \A k \in DOMAIN v.t : w.t[OffsetOf(i) + k] = v.t[k] /\ Equiv(w.s[OffsetOf(i) + k], v.s[k]))
+     ELSE
      LET w == ResultOf(e, post) IN
         Cl("C05.text", total > 0, TextIs(w, segs, pre))
      \o Cl("C05.left_sty", styled /\ n1 > 0, StyIsOn(w, segs, pre, 1, n1))
